@@ -133,7 +133,7 @@ func gen(seed uint64, tier string, o *hx.Out) {
 	for _, s := range []struct {
 		name string
 		f    func()
-	}{{"AS", g.asCases}, {"AC", g.acCases}, {"AM", g.amCases}, {"AN", g.anCases}} {
+	}{{"AS", g.asCases}, {"AC", g.acCases}, {"AM", g.amCases}, {"AN", g.anCases}, {"PA", g.paCases}, {"PD", g.pdCases}} {
 		t0, n0 := time.Now(), g.id
 		s.f()
 		g.flush()
